@@ -213,6 +213,9 @@ class Lab:
             dq = -q
         elif mode == "flip":
             dq = -q * (1 + x)
+        elif mode == "nearclose":
+            # closes all but a remainder inside the documented snapping band (|q| < 1e-7 is zeroed by design)
+            return (-q + math.copysign(3e-8, q)) if abs(q) > 1e-3 else 0.0
         elif mode == "abs":
             dq = x
         else:
@@ -226,6 +229,12 @@ class Lab:
         return dq
 
     def transact(self, i, dq):
+        trade = self._transact(i, dq)
+        if 0 < abs(self.ledger.q[i]) < 1e-7:
+            self.ledger.q[i] = 0.0            # the documented epsilon snap
+        return trade
+
+    def _transact(self, i, dq):
         trade = Trade(time=self.tick(), contract=self.contracts[i], quantity=dq,
                       bid_price=self.exchange[self.contracts[i]].bid_price,
                       ask_price=self.exchange[self.contracts[i]].ask_price, broker_fees=self.fees)
@@ -261,6 +270,21 @@ class Lab:
 
     def code_q(self, i):
         return self.broker.holdings_quantity.get(self.contracts[i], 0.0)
+
+
+def context_consistent(res, lab, ctx, where):
+    """Inside ONE snapshot: cash + posted margins + value of fully-paid positions == the NLV it reports."""
+    led = lab.ledger
+    cash = float(ctx.nr_contracts.get(lab.cash, 0.0))
+    tot = cash + sum(float(ctx.margins.get(c, 0.0)) for c in lab.contracts)
+    for i, c in enumerate(lab.contracts):
+        q = float(ctx.nr_contracts.get(c, 0.0))
+        if not lab.margined[i] and q != 0:
+            tot += q * led.liq(i, q) * lab.mult[i]
+    if not abs(tot - float(ctx.nlv)) <= 1e-9 * led.scale():
+        res.fail("%s: the snapshot's cash %.12g + margins + fully-paid values = %.12g, but it reports NLV %.12g" % (where, cash, tot, float(ctx.nlv)))
+        return False
+    return True
 
 
 def close(a, b, rel=1e-9, abs_=0.0):
@@ -334,7 +358,7 @@ def rebalance_ops(n):
 
 
 @st.composite
-def histories(draw, tier="quick", margined_bias=False, max_ops=40):
+def histories(draw, tier="quick", margined_bias=False, max_ops=40, near_close=False):
     dyadic = draw(st.integers(0, 5)) == 0
     kinds = ["umargin", "umargin", "umargin", "es", "zn", "nk", "uspot", "etf"] if margined_bias else None
     specs = draw(contract_specs(dyadic=dyadic, kinds=kinds, min_n=2 if margined_bias else 1))
@@ -354,7 +378,9 @@ def histories(draw, tier="quick", margined_bias=False, max_ops=40):
             st.tuples(st.just("V"), st.sampled_from(["nlv", "liq", "notional", "weights", "context"])),
         )
     else:
+        extra = [st.tuples(st.just("T"), st.integers(0, n - 1), st.just("nearclose"), st.just(0.0))] if near_close else []
         op = st.one_of(
+            *extra,
             quote_ops(n), quote_ops(n), trade_ops(n), trade_ops(n), trade_ops(n),
             st.tuples(st.just("M"), st.integers(-1, n - 1)),
             st.tuples(st.just("V"), st.sampled_from(["nlv", "liq", "notional", "weights", "context"])),
@@ -436,6 +462,9 @@ def history_steps(case, oracle, res, out, swap=False, nlv_path=None):
             if got < 0:
                 res.fail("negative margin %r for contract %d after op %s" % (got, i, tag))
                 return False
+            if q == 0 and abs(got) > 1e-12:
+                res.fail("contract %d is flat after op %s but %.6g of margin is still posted" % (i, tag, got))
+                return False
             if not close(got, want, rel=1e-9, abs_=1e-9 * led.scale() if want == 0 else 0.0):
                 res.fail("margin of contract %d after op %s: posted %.12g, requirement x multiplier x |q| x liq = %.12g" % (
                     i, tag, got, want))
@@ -485,6 +514,8 @@ def history_steps(case, oracle, res, out, swap=False, nlv_path=None):
                     return False
             if not close(ctx.nlv, nlv, rel=1e-12):
                 res.fail("context().nlv %.12g differs from net_liquidation_value() %.12g after op %s" % (ctx.nlv, nlv, tag))
+                return False
+            if not context_consistent(res, lab, ctx, "context() after op %s" % tag):
                 return False
         return True
 
@@ -612,7 +643,11 @@ def history_steps(case, oracle, res, out, swap=False, nlv_path=None):
                     return
                 stats["insolvent"] = True
             else:
+                if oracle == "c05" and not context_consistent(res, lab, reb.context_pre, "context_pre of rebalance %s" % tag):
+                    return
                 lab.apply_recorded_trades(reb)
+                if oracle == "c05" and not context_consistent(res, lab, reb.context_post, "context_post of rebalance %s" % tag):
+                    return
                 stats["rebalances"] += 1
                 stats["trades"] += len(reb.trades)
                 res.tag("R-%s" % op[2])
@@ -671,8 +706,12 @@ def ruin_histories(draw, tier="quick"):
     n = len(specs)
     ci = st.integers(0, n - 1)
     op = st.one_of(
-        st.tuples(st.just("Q"), ci, st.floats(0.4, 1.9), st.sampled_from([0.0, 0.0, 0.01])),
-        st.tuples(st.just("Q"), ci, st.floats(0.4, 1.9), st.sampled_from([0.0, 0.02])),
+        st.tuples(st.just("Q"), ci, st.floats(0.4, 1.9), st.sampled_from([0.0, 0.0, 0.01]), st.sampled_from([False, False, True])),
+        st.tuples(st.just("Q"), ci, st.floats(0.4, 1.9), st.sampled_from([0.0, 0.02]), st.sampled_from([False, False, True])),
+        st.tuples(st.just("V"), st.just("nlv")),
+        # decisions after long periods on borrowed cash: the interest charged at the decision may exhaust the account
+        st.tuples(st.just("R"), st.lists(st.one_of(st.none(), st.floats(-2.0, 2.0)), min_size=n, max_size=n), st.just("weight"),
+                  st.integers(10 ** 7, 3 * 10 ** 8)),
         st.tuples(st.just("T"), ci, st.just("open"), st.floats(1.5, 5.0).flatmap(lambda x: st.sampled_from([x, -x]))),
         st.tuples(st.just("T"), ci, st.just("reduce"), st.floats(0.05, 0.95)),
         st.tuples(st.just("V"), st.sampled_from(["nlv", "liq", "weights", "context"])),
@@ -682,5 +721,5 @@ def ruin_histories(draw, tier="quick"):
     first = ("T", draw(ci), "open", draw(st.floats(1.5, 5.0)) * draw(st.sampled_from([-1.0, 1.0])))
     ops = [first] + draw(st.lists(op, min_size=2, max_size=25))
     return {"contracts": specs, "fees": list(draw(fee_schedules())), "deposit": draw(st.sampled_from([100.0, 1000.0, 5e4])),
-            "rate": draw(st.sampled_from([0.0, 0.0, 0.05])), "markup": draw(st.sampled_from([0.0, 0.01])), "dyadic": False,
+            "rate": draw(st.sampled_from([0.0, 0.0, 0.05, 0.1])), "markup": draw(st.sampled_from([0.0, 0.01])), "dyadic": False,
             "ops": [list(o) for o in ops]}
